@@ -263,6 +263,9 @@ class SymE(object):
             return summary(self, list(args), dict(kwargs))
 
         self.ip.call_hooks[qual] = hook
+        used = getattr(self.ip, "contracts_used", None)
+        if used is not None:
+            used.add(qual)
 
     def drop_contract(self, qual):
         self.ip.call_hooks.pop(qual, None)
